@@ -123,6 +123,22 @@ pub fn noise(ctx: &mut RunCtx, sc: &Scenario, h: &mut Rng, cheap_only: bool) {
                 return;
             }
         }
+        // the same circuit followed by rows with non-zero wires: more live rows than ours, in the
+        // same or the next domain (what a buffer recycled between proofs would still hold)
+        6 if full_ok => {
+            let mut p = (*sc.prog).clone();
+            let extra = *h.pick(&[1usize, 3, 8, 20, 70]);
+            for _ in 0..extra {
+                p.ops.push(Op::AssertEqConst(h.scalar()));
+            }
+            if let Some(c) = count_constraints(&p) {
+                ctx.st.fault("history.longer_circuit_with_live_rows");
+                let (l, _) = label_variant(&sc.label, h);
+                let label = if h.chance(1, 2) { sc.label.clone() } else { l };
+                serve(ctx, &label, p, deploy::min_degree_for(c), h, false, false);
+                return;
+            }
+        }
         // kernels on the same and neighbouring domain sizes
         4 | 5 => {
             let n = sc.constraints.next_power_of_two();
